@@ -84,11 +84,13 @@ def gen_session(rng, paths, n):
     return recs
 
 
-def sess_script(recs, live=None):
-    s = "new\n"
+def sess_script(recs, live=None, fresh=True):
+    """fresh=False: the session goes on in the DepsLog object that has just loaded (and recovered) the file, as one ninja
+    process does - load, then append; whatever the recovery left in memory is what the appended records are numbered by"""
+    s = "new\n" if fresh else ""
     if live is not None:
         s += "live %s\n" % (",".join(hx(x) for x in live) or "-")
-    s += "load f\nopen f\n"
+    s += ("load f\n" if fresh else "") + "open f\n"
     for out, mt, deps in recs:
         s += "rec %s %d %s\n" % (hx(out), mt, ",".join(hx(d) for d in deps) or "-")
     return s + "close\n"
@@ -201,7 +203,7 @@ def run(ctx):
             tid = "T%s_%d" % (cid, c)
             s2, s3 = gen_session(rng, paths + [b"newdep.h", b"zz"], rng.randint(1, 3)), gen_session(rng, paths, rng.randint(1, 2))
             sc = "write f %s\nnew\nload f\ndump\nsize f\n" % hx(B[:c])
-            sc += sess_script(s2) + CHECK + sess_script(s3) + CHECK
+            sc += sess_script(s2, fresh=rng.random() < 0.5) + CHECK + sess_script(s3) + CHECK
             tcases.append((tid, sc))
             tmeta[tid] = (B[:c], [s2, s3], "cut")
         # damage after a valid prefix (prefix ends at a record boundary)
@@ -214,7 +216,7 @@ def run(ctx):
             tid = "D%s_%d" % (cid, k)
             s2 = gen_session(rng, paths + [b"newdep.h"], rng.randint(1, 3))
             s3 = gen_session(rng, paths, 1)
-            sc = "write f %s\nnew\nload f\ndump\nsize f\n" % hx(data) + sess_script(s2) + CHECK + sess_script(s3) + CHECK
+            sc = "write f %s\nnew\nload f\ndump\nsize f\n" % hx(data) + sess_script(s2, fresh=rng.random() < 0.4) + CHECK + sess_script(s3) + CHECK
             tcases.append((tid, sc))
             tmeta[tid] = (data, [s2, s3], "damage")
     outs2, crashes2, tos2 = P.run_cases(b, "depslog", tcases, timeout=1200)
